@@ -17,9 +17,11 @@ type Step struct {
 
 // Behaviour is one TLC behaviour (simulation run, shortest path of the state graph, or attack trace).
 type Behaviour struct {
-	ID    string `json:"id"`
-	Kind  string `json:"kind"` // "sim" | "cover" | "attack:<guard>" | "own"
-	Steps []Step `json:"steps"`
+	ID   string `json:"id"`
+	Kind string `json:"kind"` // "sim" | "cover" | "attack:<guard>" | "own"
+	// Params: constants of the TLC config the behaviour came from (committee size, Byzantine set, ...)
+	Params map[string]any `json:"params,omitempty"`
+	Steps  []Step         `json:"steps"`
 }
 
 // Violation is a property-monitor trip observed on the real code.
